@@ -1,7 +1,7 @@
 """C41 A broken repository affects only its own subtree (error-source allowlist for run-failing errors)."""
 import re
 from lib.facts import norm, callee_name, Origin, Site
-from lib.rules import agg_sites
+from lib.rules import agg_sites, arg_desc
 from lib.tables import describe, enumerate_paths
 
 META = dict(
@@ -230,6 +230,16 @@ def rule_explicit(ctx):
                 if re.search(bre, nid) and re.search(ere, d):
                     hit = i
                     break
+            if hit is None and re.match(r'^(call:(?:\w+::)*From>?::from\()?call:.*@Err\.0\)?$', d):
+                # `match f() { Ok(x) => x, Err(err) => return Err(err) }`: the explicit form of `f()?` - judged like a `?` source
+                b = scope[nid]
+                srcs = sources_of(b, b.origin_of_operand(site.stmt['rv']['ops'][0]))
+                src = srcs[0] if srcs else '?'
+                ok = bool(srcs) and (LOCAL.search(src) or CALLBACK.search(src) or in_scope(src, scope) or src.split('::{closure')[0] in scope)
+                ctx.check(bool(ok), 'audit', 'source:%s<-%s' % (nid, src), 'error of %s passed on explicitly (audited/local)' % src,
+                          '%s lets an error of %s end the whole validation run (explicit `Err(err) => return Err(err)`): a fault in one '
+                          'repository or object is no longer confined to its publication point' % (nid, src), loc=site.loc())
+                continue
             if hit is None:
                 # an inner Err that is an Ok(Err(self)) style fallback value is not run-failing: lhs type decides
                 ctx.bad('audit', 'explicit:%s:%s' % (nid, re.sub(r'@bb\d+', '', d)[:60]),
@@ -314,6 +324,33 @@ FETCH_DECISIONS = {
 }
 
 
+def var_atoms(ctx, b, local, depth=0):
+    """A bool temporary (`let dubious = if filter { uri.has_dubious_authority() } else { false };`) decides through the
+    values assigned to it and through the switches that select which assignment runs."""
+    defs = [site for site, st in b.stmts() if st['s'] == 'assign' and st['lhs'] == [local]]
+    cdefs = [Site(b, i) for i, blk in enumerate(b.blocks) if blk['term'].get('t') == 'call' and blk['term'].get('dest') == [local]
+             and not blk.get('cleanup')]
+    if not (defs or cdefs) or depth > 2:
+        return None
+    atoms = ['call:%s(%s)' % (norm(c.callee), ','.join(arg_desc(c, i) for i in range(len(c.term['args'])))) for c in cdefs]
+    for site in defs:
+        st = getattr(site, 'stmt', None)
+        if st is not None and st['s'] == 'assign':
+            rv = st['rv']
+            d = describe(b.origin_of_stmt(site))
+            if not re.match(r'^const\(', d):
+                atoms.append(d)
+    dbbs = {site.bb for site in defs} | {c.bb for c in cdefs}
+    for sbb in b.switches():
+        o, edges = b.switch_edges(sbb)
+        tg = list(edges)
+        hits = [tb for tb in tg if any(x == tb or x in b.reachable(tb) for x in dbbs)]
+        per = [frozenset(x for x in dbbs if x == tb or x in b.reachable(tb)) for tb in tg]
+        if len(set(per)) > 1 and o is not None:
+            atoms.append(describe(o))
+    return atoms or None
+
+
 def decision_atoms(ctx, b, o):
     """What a deciding switch tests: its own description, or - for a small crate-local bool helper - everything the helper
     branches on / returns."""
@@ -327,6 +364,10 @@ def decision_atoms(ctx, b, o):
             oc = oc.a
         else:
             break
+    if oc is not None and oc.kind in ('var', 'local', 'phi', 'multi') and getattr(oc, 'local', None) is not None:
+        va = var_atoms(ctx, b, oc.local)
+        if va:
+            return va
     if oc is not None and oc.kind == 'call':
         nm = norm(oc.callee)
         if nm.split('::')[0] not in ('std', 'core', 'alloc', 'rpki'):
